@@ -29,6 +29,12 @@ def gen_cases(ctx, n):
     cases = []
     for i in range(n):
         r = cm.rng(ctx.seed, "c03", i)
+        if i % 33 == 32:
+            cases.append(gen_size_case(r, i))
+            continue
+        if i % 33 == 31:
+            cases.append(gen_black_case(r, i))
+            continue
         k = i % 20
         kind = ("tidy" if k < 10 else "reformat" if k < 12 else "star" if k < 14 else "broken" if k < 16
                 else "transform" if k < 19 else "cli")
@@ -45,6 +51,79 @@ def gen_cases(ctx, n):
             c["filename"] = r.choice(["/nonexistent-verif/pkgdir/__init__.py", "/nonexistent-verif/.pyflyby/x.py"])
         cases.append(c)
     return cases
+
+
+# ---------------------------------------------------------------------------------------------
+# size extremes (oracle only): the unmodified tree handles binary-operator / attribute chains of ~950 levels (Python's
+# recursion limit of 1000 minus the frames of the caller; from ~960 on: known finding F43) and CPython itself refuses
+# more than 200 nested brackets; the stream stays at 600-850 resp. 150-190
+
+def size_src(shape, n):
+    if shape == "sum":
+        return "import os, sys\nTOTAL = " + " + ".join("v%d" % i for i in range(n)) + "\nimport keyword\n"
+    if shape == "attr":
+        return "from pkg import a\nT = a" + ".b" * n + "; import m\n"
+    if shape == "mixed":
+        return "import os\nT = " + " - ".join("a.b(v%d)[%d]" % (i, i) for i in range(n)) + "\n"
+    if shape == "paren":
+        return "import os\nT = " + "(" * n + "1" + ")" * n + "\nfrom m import x\n"
+    if shape == "call":
+        return "import os\nT = " + "f(" * n + "os" + ")" * n + "\n"
+    if shape == "list":
+        return "import os\nT = " + "[" * n + "os" + "]" * n + "; import m\n"
+    if shape == "longline":
+        return "import os\nS = '" + "x" * n + "'; import m\nL = [" + ", ".join("n%d" % i for i in range(n // 8)) + "]  # " + "c" * 500 + "\n"
+    if shape == "statements":
+        return "".join("v%d = os.x%d\n" % (i, i) if i % 50 else "import m%d\n" % i for i in range(n)) + "import os\n"
+    if shape == "imports":
+        return "".join("from pkg%d.sub import name%d as alias%d\n" % (i % 17, i, i) for i in range(n)) + "alias3\n"
+    if shape == "blocks":
+        return "".join("import mod%d\nmod%d.f()\n" % (i, i if i % 3 else i + 1) for i in range(n))
+    if shape == "dotted":
+        name = ".".join("component%d" % i for i in range(n))
+        return "import %s\nfrom %s import leaf as l\n%s.x\n" % (name, name, name)
+    raise ValueError(shape)
+
+
+SIZES = {"sum": (600, 850), "attr": (600, 850), "mixed": (280, 400), "paren": (150, 190), "call": (150, 190), "list": (150, 190),
+         "longline": (20000, 60000), "statements": (800, 3000), "imports": (300, 900), "blocks": (150, 400), "dotted": (40, 120)}
+
+
+def gen_size_case(r, i):
+    shape = r.choice(sorted(SIZES))
+    lo, hi = SIZES[shape]
+    kind = r.choice(["reformat", "tidy", "transform"])
+    if kind == "tidy" and shape in ("sum", "mixed"):
+        lo, hi = 300, 450          # the scope analysis of tidy spends two frames per operator level: ~480 on the agreed tree (F43)
+    n = r.randint(lo, hi)
+    c = {"kind": kind, "stream": "size", "oracle_only": True, "i": i, "size": [shape, n], "src": size_src(shape, n),
+         "db": "import os\n", "flags": dict(T), "params": r.choice([None, {"max_line_length": 40}])}
+    if kind == "transform":
+        c["tmap"] = [["m", "mm"]]
+    return c
+
+
+# black mode (oracle only; the formatter model does not cover it): pyproject.toml [tool.black] tables
+def gen_black_case(r, i):
+    tbl = {}
+    if r.random() < .7:
+        tbl["line-length"] = r.choice([40, 60, 79, 88, 120])
+    k = r.random()
+    if k < .35:
+        tbl["target-version"] = [r.choice(["py38", "py39", "py311", "py312"])]
+    elif k < .6:
+        tbl["target-version"] = sorted(r.sample(["py38", "py39", "py310", "py311", "py312"], 2))
+    elif k < .7:
+        tbl["target-version"] = r.choice(["py39", "py312"])                  # a plain string is accepted too
+    if r.random() < .4:
+        tbl["skip-string-normalization"] = r.random() < .5
+    if r.random() < .3:
+        tbl["skip-magic-trailing-comma"] = r.random() < .5
+    if r.random() < .2:
+        tbl["preview"] = True
+    par = dict(r.choice([{}, {"max_line_length": 60}, {"align_imports": False}, {"separate_from_imports": False, "from_spaces": 3}]), use_black=True)
+    return {"kind": r.choice(["reformat", "tidy", "tidy"]), "stream": "black", "oracle_only": True, "i": i, "src": S.gen_layout_src(r),
+            "db": r.choice(S.DBS), "flags": S.gen_flags(r), "params": par, "pyproject": tbl if r.random() < .9 else None}
 
 
 T = {"add_missing": True, "remove_unused": True, "add_mandatory": True}
@@ -71,11 +150,18 @@ WITNESSES = [
     {"kind": "tidy", "w": "utf8-3byte", "src": 's = "\u65e5\u672c\u8a9e"; import os; print(os, s)\n', "db": "", "flags": T, "params": None},
     {"kind": "reformat", "w": "utf8-4byte", "src": 's = "\U0001f600"; import os, sys; print(os, s)  # \u201cq\u201d\n', "db": "", "flags": T, "params": None},
     {"kind": "tidy", "w": "ident-marks", "src": "\u0928\u093e\u092e = 1\nparal\u00b7lel.x\nimport \u0e0a\u0e37\u0e48\u0e2d\n\u0e0a\u0e37\u0e48\u0e2d.y\n", "db": S.DB_UNI, "flags": T, "params": None},
+    {"kind": "tidy", "w": "F43", "oracle_only": True, "stream": "size", "src": size_src("sum", 520), "db": "", "flags": T, "params": None},
+    {"kind": "reformat", "w": "deep", "oracle_only": True, "stream": "size", "src": size_src("sum", 900), "db": "", "flags": T, "params": None},
+    {"kind": "transform", "w": "deep", "oracle_only": True, "stream": "size", "src": size_src("attr", 900), "db": "", "flags": T, "params": None, "tmap": [["m", "mm"]]},
+    {"kind": "tidy", "w": "F44", "src": "import os\nfoo()  # type: int\nos\n", "db": "", "flags": T, "params": None},
+    {"kind": "reformat", "w": "F44", "src": "import os\nprint(1)  # type: whatever (\n", "db": "", "flags": T, "params": None},
+    {"kind": "tidy", "w": "F45", "src": "x = 1; \\\nimport foo\ny = 2\n", "db": "", "flags": T, "params": None},
+    {"kind": "tidy", "w": "F45", "src": "x = 1; \\\nimport foo\n", "db": "", "flags": T, "params": None},
     {"kind": "tidy", "w": "F16", "src": "import os.path\nprint(os.getcwd())\n", "db": "import os\n", "flags": T, "params": None},
     {"kind": "tidy", "w": "F34", "src": "from os import sep as b\ndef f():\n    return b\nfrom os import pardir as b\nprint(f())\n", "db": "", "flags": T, "params": None},
 ]
 for _w in WITNESSES:
-    _w["stream"] = "witness"
+    _w.setdefault("stream", "witness")
 
 
 # ---------------------------------------------------------------------------------------------
@@ -119,7 +205,58 @@ def _cli(c):
         shutil.rmtree(d, ignore_errors=True)
 
 
+BLACK_SCRIPT = ("import sys, json\nfrom harness import c04_s2s as S\nc = json.load(sys.stdin)\n"
+                "a = S.run_tool(c['kind'], c['src'], c['db'], c['flags'], c['params'], c.get('tmap'))\n"
+                "b = S.run_tool(c['kind'], a['out'], c['db'], c['flags'], c['params'], c.get('tmap')) if a.get('out') is not None else None\n"
+                "print(json.dumps({'first': a, 'second': b}))\n")
+
+
+def _toml(tbl):
+    def v(x):
+        if isinstance(x, bool):
+            return "true" if x else "false"
+        if isinstance(x, list):
+            return "[" + ", ".join(v(y) for y in x) + "]"
+        return json.dumps(x)
+    return "[tool.black]\n" + "".join("%s = %s\n" % (k, v(x)) for k, x in tbl.items())
+
+
+def impl_oracle_only(c):
+    """size / black streams: no capture; black runs in a process of its own whose cwd holds the pyproject.toml
+    (black memoises the project root per process)"""
+    res = {"kind": c["kind"], "doc_in": _doc(c["src"])}
+    if c["stream"] == "black":
+        d = tempfile.mkdtemp(prefix="verif-c03-black-")
+        try:
+            with open(os.path.join(d, ".git"), "w"):          # makes d the project root for black's search
+                pass
+            if c.get("pyproject") is not None:
+                with open(os.path.join(d, "pyproject.toml"), "w") as f:
+                    f.write(_toml(c["pyproject"]))
+            env = dict(os.environ, PYTHONPATH=os.environ.get("PYTHONPATH", ""))
+            p = subprocess.run([sys.executable, "-c", BLACK_SCRIPT], input=json.dumps(c), stdout=subprocess.PIPE, stderr=subprocess.PIPE,
+                               text=True, cwd=d, env=env, timeout=50)
+            try:
+                r = json.loads(p.stdout.strip().split("\n")[-1])
+            except Exception:
+                r = {"first": {"exc": "subprocess failed", "msg": p.stderr[-300:]}, "second": None}
+        finally:
+            shutil.rmtree(d, ignore_errors=True)
+        res.update(r["first"])
+        res["second"] = r["second"]
+    else:
+        res.update(S.run_tool(c["kind"], c["src"], c.get("db", ""), dict(c.get("flags") or {}), c.get("params"), c.get("tmap")))
+        if res.get("out") is not None:
+            res["second"] = S.run_tool(c["kind"], res["out"], c.get("db", ""), dict(c.get("flags") or {}), c.get("params"), c.get("tmap"))
+    if res.get("out") is not None:
+        res["nocompile"] = _compiles(res["out"])
+        res["doc_out"] = _doc(res["out"])
+    return res
+
+
 def impl_case(c):
+    if c.get("oracle_only"):
+        return impl_oracle_only(c)
     kind = c["kind"]
     cc = dict(c, kind="tidy") if kind == "cli" else c
     res = S.impl_case(cc)
@@ -237,18 +374,47 @@ def is_F34(c, im, clause):
 
 def is_F39(c, im, clause):
     """fixed point only: the second pass only removes imports, each binding the local name of a mandatory import
-    the first pass ADDED (into another block) and being a different import."""
+    the first pass ADDED into another block (add_import looks for an existing / conflicting import in the chosen
+    block only): the same import once more, or a different one that it shadows."""
     if c["kind"] not in ("tidy", "cli") or clause != "fixed_point":
         return False
     d = second_pass_delta(im)
     if not d or d[1] or not d[0]:
         return False
     added_mand = {a[0][1].split(".")[0]: a[0][0] for a in im.get("adds", []) if a[1] is None and a[2][0] == "added"}
+    if c.get("oracle_only") and (c.get("flags") or {}).get("add_mandatory", True):
+        # no capture in the oracle-only streams: the mandatory names of the database text that the first output binds
+        from . import c04_db as D
+        first = {n.split(".")[0] for n, f, fut in top_imports(im["out"])}
+        added_mand = {n: None for n in D.effective(c.get("db", ""))[1] if n in first}
     for n, f, fut in d[0]:
         root = n.split(".")[0]
-        if root not in added_mand or added_mand[root] == f:
+        if root not in added_mand:
             return False
     return True
+
+
+def ast_depth(src):
+    """nesting depth of the deepest expression, computed without recursion"""
+    try:
+        tree = ast.parse(src)
+    except (SyntaxError, RecursionError, MemoryError):
+        return 10 ** 6
+    best, stack = 0, [(tree, 0)]
+    while stack:
+        node, d = stack.pop()
+        best = max(best, d)
+        for ch in ast.iter_child_nodes(node):
+            stack.append((ch, d + 1))
+    return best
+
+
+def is_F43(c, im, clause):
+    """RecursionError on an expression nested deeper than the recursive walkers can follow with Python's default
+    recursion limit: ~480 levels for tidy (scope analysis), ~970 for the other rewriters."""
+    if clause != "no_internal_error" or im.get("exc") != "RecursionError":
+        return False
+    return ast_depth(c["src"]) >= (470 if c["kind"] in ("tidy", "cli") else 950)
 
 
 def is_F41(c, im, clause):
@@ -277,7 +443,7 @@ def is_F42(c, im, clause):
             and isinstance(body[k].value.value, str) and body[k].value.value == im.get("doc_out"))
 
 
-CLASSIFIERS = [("F36", is_F36), ("F39", is_F39), ("F34", is_F34), ("F41", is_F41), ("F42", is_F42)]
+CLASSIFIERS = [("F43", is_F43), ("F36", is_F36), ("F39", is_F39), ("F34", is_F34), ("F41", is_F41), ("F42", is_F42)]
 
 
 def oracle(c, im):
@@ -341,13 +507,14 @@ def check_cases(ctx, cases):
                 ctx.bump("known:" + fid)
             else:
                 ctx.violation(clause, c, detail)
-        if nontriv:
+        ctx.bump("stream:" + str(c.get("stream")))
+        if nontriv and not c.get("oracle_only"):
             ctx.sample({"kind": c["kind"], "src": c["src"], "out": im.get("out")}, limit=3)
     return ne
 
 
 def run(ctx):
-    n = int(os.environ.get("VERIF_N", 600 if ctx.quick else 20000))
+    n = int(os.environ.get("VERIF_N", 600 if ctx.quick else 15000))
     ctx.coverage["rule"] = ("layout-rich generated modules (docstring/comment prologues, `;` joins, trailing comments, imports after code, "
                             "imports sharing a line with other statements, prologue-only files, missing final newline, very long dotted "
                             "names) x 7 databases (unique / ambiguous / absent / dotted / alias entries, one or two mandatory imports incl. "
